@@ -54,7 +54,8 @@ class GT:
             out.append((i, segs))
         return out
 
-NAMES = [b"alpha", b"beta", b"g\xc3\xa4mma", b"delta x", b"eps.bin", b"z", b"Data", b"data1", b".. ", b"...", b" lead", b"trail "]
+NAMES = [b"alpha", b"beta", b"g\xc3\xa4mma", b"delta x", b"eps.bin", b"z", b"Data", b"data1", b".. ", b"...", b" lead", b"trail ",
+         b"caf\xef\xbf\xbd", b"\xef\xbf\xbd"]          # U+FFFD is an ordinary character of a valid UTF-8 name
 
 def gen_content(rng, n):
     k = rng.below(4)
@@ -157,10 +158,13 @@ def gen_world(rng, ntorrents=None, features=()):
             files = (b.files + [fb]) if b.multi else [fb]
             w.gts[1] = GT(b.name, b.L, files, b.multi)
     w.docs = [g.doc for g in w.gts]
+    if rng.chance(1, 6):
+        w.export = (rng.choice([b"exp\xf4rt", b"T\xe9l\xe9", b"out\xff"]),)      # not valid UTF-8
+        # (file targets below are computed from w.export, so this must happen before any of them)
     w.dirs.add(w.export)
     nscan = rng.range(1, 3)
     # directory names that are string prefixes of one another (scan1 / scan10, lib / lib2) are deliberate
-    pool = [(b"scan0",), (b"scan1",), (b"scan10",), (b"lib",), (b"lib2",), (b"outer0", b"scan"), (b"outer1", b"scan"), (b"outer1", b"scan2")]
+    pool = [(b"scan0",), (b"scan1",), (b"scan10",), (b"lib",), (b"lib2",), (b"outer0", b"scan"), (b"outer1", b"scan"), (b"outer1", b"scan2"), (b"sc\xe4n",)]
     scan_names = rng.shuffle(pool)[:nscan]
     for s in scan_names:
         w.add_file(s + (b".keep",), b"k")   # makes the directories exist
@@ -224,8 +228,12 @@ def gen_world(rng, ntorrents=None, features=()):
                     path = sd + (g.name,) + tuple(f.path) if g.multi else sd + (g.name,)   # same relative layout
                 elif where == 1:
                     path = sd + (b"moved%d" % c, f.path[-1])                                # same file name elsewhere
-                else:
+                elif where == 2:
                     path = sd + (b"r%d_%d_%d" % (w.gts.index(g), fi, c),)                   # renamed
+                else:
+                    # renamed to something that is not valid UTF-8 (Latin-1 file names survive on many disks); same
+                    # directory for all of them, so that several tie on similarity
+                    path = sd + (rng.choice([b"caf\xe9_%d_%d_%d.bin", b"\xff\xfe_%d_%d_%d"]) % (w.gts.index(g), fi, c),)
                 if path in w.files:
                     continue
                 if not w.add_file(path, content):
@@ -239,6 +247,25 @@ def gen_world(rng, ntorrents=None, features=()):
         w.scan.append(w.export)                        # export directory among the scan directories
     elif rng.chance(1, 8):
         w.scan.append(())                              # the whole sandbox (contains export, bystanders, other scan dirs)
+    if rng.chance(1, 8):
+        # the same scan directories spelled with redundant separators or `.` components (what a script joining
+        # "$BASE/" and "/sub" produces); the export directory keeps its plain spelling
+        def odd(comps):
+            parts = [c.decode("utf-8", "surrogateescape") for c in comps]
+            k = rng.below(4)
+            if not parts:
+                return rng.choice([".", "./.", ""])
+            j = rng.below(len(parts))
+            if k == 0:
+                parts[j] = "./" + parts[j]
+            elif k == 1:
+                parts[j] = "/" + parts[j]
+            elif k == 2:
+                parts[-1] = parts[-1] + "/."
+            else:
+                parts[-1] = parts[-1] + "//"
+            return "/".join(parts)
+        w.scan_args = ["\x00ABS/" + odd(sd) for sd in w.scan]
     if rng.chance(1, 6):
         w.docs = w.docs + [rng.choice(w.docs)]         # a torrent listed twice
     if rng.chance(1, 3):
@@ -337,7 +364,8 @@ def rel(root, absolute_hex):
     if p == rb:
         return ()
     if p.startswith(rb + b"/"):
-        return tuple(p[len(rb) + 1:].split(b"/"))
+        # redundant separators and `.` components of an oddly spelled argument are not components
+        return tuple(c for c in p[len(rb) + 1:].split(b"/") if c not in (b"", b"."))
     return (b"\x00OUTSIDE",) + tuple(c for c in p.split(b"/") if c)
 
 def _limit_memory():
@@ -357,7 +385,7 @@ def execute(w, keep=False, timeout=30):
         before_dirs, before_files = snapshot(root)
         args = [C.TBH, "run", "--export", w.export_arg if w.export_arg is not None else os.path.join(root, *[c.decode("utf-8", "surrogateescape") for c in w.export])]
         scan_args = w.scan_args if w.scan_args is not None else [os.path.join(root, *[c.decode("utf-8", "surrogateescape") for c in s]) for s in w.scan]
-        scan_args = [os.path.join(root, a[len("\x00ABS/"):]) if a.startswith("\x00ABS/") else a for a in scan_args]
+        scan_args = [root + "/" + a[len("\x00ABS/"):] if a.startswith("\x00ABS/") else a for a in scan_args]   # (not os.path.join: a leading "/" must stay a redundant separator)
         r_scan_abs = [a.startswith("/") for a in scan_args]
         for s in scan_args:
             args += ["--scan", s]
@@ -602,8 +630,9 @@ def gen_world_c14(rng):
 def gen_world_c16(rng, i):
     """argument validation and degenerate-but-loadable torrents"""
     w = gen_world(rng, ntorrents=rng.choice([1, 2]))
+    w.scan_args = None           # these worlds spell their arguments themselves
     k = i % 11
-    root_rel = lambda comps: "/".join(c.decode() for c in comps) or "."      # the sandbox root itself, relatively: "."
+    root_rel = lambda comps: "/".join(c.decode("utf-8", "surrogateescape") for c in comps) or "."      # the sandbox root itself, relatively: "."
     if k == 0:
         w.scan_args = None; w.export_arg = root_rel(w.export); w.tag = "export relative"
     elif k == 1:
@@ -615,12 +644,17 @@ def gen_world_c16(rng, i):
     elif k == 3:
         w.scan.insert(rng.below(len(w.scan) + 1), (b"bystander", b"note.txt")); w.tag = "scan is a file"
     elif k == 4:
-        w.export = (b"no-such-export",); w.dirs.discard((b"export",)); w.tag = "export missing"
-        w.files = {p: v for p, v in w.files.items() if p[0] != b"export"}
-        w.dirs = {d for d in w.dirs if d[0] != b"export"}
+        old = w.export[0]
+        w.export = (b"no-such-export",); w.dirs.discard((old,)); w.tag = "export missing"
+        w.files = {p: v for p, v in w.files.items() if p[0] != old}
+        w.dirs = {d for d in w.dirs if d[0] != old}
+        w.symlinks = {p: t for p, t in w.symlinks.items() if p[0] != old}
+        w.scan = [sd for sd in w.scan if not sd or sd[0] != old]; w.scan_args = None
     elif k == 5:
+        old = w.export[0]
         w.export = (b"bystander", b"note.txt"); w.tag = "export is a file"
-        w.files = {p: v for p, v in w.files.items() if p[0] != b"export"}
+        w.files = {p: v for p, v in w.files.items() if p[0] != old}
+        w.symlinks = {p: t for p, t in w.symlinks.items() if p[0] != old}
     elif k == 6:
         w.docs = []; w.tag = "no torrents"
     elif k == 7:
@@ -642,6 +676,8 @@ def transform_presentation(rng, w, k):
     import copy
     v = copy.copy(w)
     v.docs = list(w.docs); v.scan = list(w.scan); v.files = dict(w.files); v.dirs = set(w.dirs)
+    if k in (2, 3, 4, 5):
+        v.scan_args = None          # the list of scan directories changes: plain spellings
     if k == 0:
         v.docs = rng.shuffle(v.docs); v.tag = "torrents permuted"
     elif k == 1:
@@ -729,7 +765,7 @@ def execute_cli(w, timeout=60):
         root, tpaths = materialise(w, base)
         args = [C.REPO_BIN, "--export", w.export_arg if w.export_arg is not None else os.path.join(root, *[c.decode("utf-8", "surrogateescape") for c in w.export])]
         scan_args = w.scan_args if w.scan_args is not None else [os.path.join(root, *[c.decode("utf-8", "surrogateescape") for c in s]) for s in w.scan]
-        scan_args = [os.path.join(root, a[len("\x00ABS/"):]) if a.startswith("\x00ABS/") else a for a in scan_args]
+        scan_args = [root + "/" + a[len("\x00ABS/"):] if a.startswith("\x00ABS/") else a for a in scan_args]
         args += ["--scan"] + scan_args
         args += ["--torrents"] + tpaths
         args += ["--threads", str(w.threads)]
